@@ -2,14 +2,21 @@
 Oracle (implementation only): for every path GET serves (200/206), HEAD has the same status
 and headers (Content-Length included: it is the length of the body GET sent; timestamp masked) and no body;
 OPTIONS is a bodiless success carrying the preflight grants when an Origin is given (in the restricted CORS
-mode: when the configuration lists the origin, the method and the headers asked for)."""
+mode: when the configuration lists the origin, the method and the headers asked for).
+The answers are read from what the peer RECEIVED (every buffer, interim answers skipped: props/c09_features.py); a GET answered
+304 Not Modified counts as a path GET found: status and headers of HEAD have to follow (no Content-Length clause then).
+VERIF_C09_SPECIAL=1 adds the group (off by default: the content of such files changes from one request to the next) that links into the machine's own file system (/proc, a sparse file under the temporary directory)."""
 from vlib import common as C, serve as S, reqgen as G, strict_http as H, servecheck as K, gen_c09 as X
+from props import c09_features as F
 
 DRIVERS = ['Serve']   # model driver files this check runs: scopes translator failures to the tables they (and the proofs) import
 TRUSTED = []
 ASSUMPTIONS = []
 WITH_MODEL = True
 
+import os
+SPECIAL = os.environ.get('VERIF_C09_SPECIAL', '0') not in ('', '0')    # the group that reaches into the machine's own file system (Linux: /proc, a sparse file)
+BATCH2 = 420    # the batches of the second pass (smaller: more of them run side by side)
 BATCH = 640     # cases per harness/model process pair: the batches of a run execute side by side, the largest one sets the wall time
 
 def build(rng, tier):
@@ -43,7 +50,7 @@ def build(rng, tier):
                     o.triple('base', p + q, hs, entry)
         base += X.split(tree, o.cases, BATCH)
     # the families of vlib/gen_c09.py, on trees that hold one instance of every shape of servable path (known sizes)
-    fam = []
+    fam, fam2 = [], []
     for k in range(3 if quick else 6):
         tree = S.gen_tree(rng.fork(f'c9-{k}'), small=True)
         T = X.extend_tree(rng.fork(f'c9x-{k}'), tree, k, big=(k % 3 == 2 if quick else k % 2 == 0))
@@ -53,15 +60,34 @@ def build(rng, tier):
         X.fam_target(r, o, T, quick); X.fam_framing(r, o, T, quick); X.fam_order(r, o, T, quick)
         if not quick: X.fam_entry(r, o, T)
         fam += X.split(tree, o.cases, BATCH)
-    groups = [('default', base + fam)]
+        # second audit pass: features the server does not have today and the relation of inputs each of them hinges on (vlib/gen_c09.py)
+        tree2 = X.clone(tree)                 # the trees of the first pass stay what they were
+        Gp = X.extend_tree2(rng.fork(f'c9n-{k}'), tree2, k)
+        o2 = X.Out(tree2)
+        r2 = rng.fork(f'c9g-{k}')
+        X.fam_first(r2, o2, Gp, quick)        # before anything else names these paths (a batch is one process; the first cut of a split keeps the order)
+        first = o2.cases; o2.cases = []
+        if k % 2 == 0 if not quick else k == 0: X.fam_feature(r2, o2, T, Gp, quick, k + rng.fork('rot').below(7))
+        if not quick or k == 1: X.fam_side(r2, o2, Gp, quick); X.fam_hostorigin(r2, o2, T, quick)
+        if not quick or k == 2: X.fam_content(r2, o2, Gp, quick); X.fam_stream(r2, o2, T, Gp, quick); X.fam_parts(r2, o2, T, quick)
+        fam2 += [(tr, (first if j == 0 else []) + cs) for j, (tr, cs) in enumerate(X.split(tree2, o2.cases, BATCH2))]
+    # the second pass is a group of its own (same environment): its batches run next to the ones of the first pass, not after them
+    groups = [('default', base + fam), ('features', fam2)]
+    # files of the machine itself behind links (/proc, a sparse file beyond 2^32): the model does not have them, the oracle judges alone
+    if SPECIAL:
+        ts = X.special_tree(rng.fork('special'))
+        o = X.Out(ts, 'special')
+        X.fam_special(rng.fork('special-f'), o, quick)
+        groups.append(('special', [(ts, o.cases)]))
     # configurations: the restricted CORS mode (listed / not listed), the switch not a boolean / not set
-    for ci, cfg in enumerate(('listed', 'closed', 'notbool', 'unset', 'listed-cred-empty', 'listed-cred-unset', 'listed-cred-odd', 'listed-bare')):
+    for ci, cfg in enumerate(('listed', 'closed', 'notbool', 'unset', 'listed-cred-empty', 'listed-cred-unset', 'listed-cred-odd', 'listed-bare', 'listed-many', 'all-with-lists')):
         batches = []
         for k in range(1 if quick else 2):
             tree = S.gen_tree(rng.fork(f'cfg-{cfg}-{k}'), small=True)
             T = X.extend_tree(rng.fork(f'cfgx-{cfg}-{k}'), tree, k + ci)
             o = X.Out(tree, cfg)
             X.fam_preflight(rng.fork(f'cfgp-{cfg}-{k}'), o, T, quick, cfg_vocab=True)
+            X.fam_hostorigin(rng.fork(f'cfgh-{cfg}-{k}'), o, T, quick, cfg_vocab=True)      # the configuration and what a proxy / the client says about the origin
             if not quick: X.fam_range(rng.fork(f'cfgr-{cfg}-{k}'), o, T, True)
             batches += X.split(tree, o.cases, BATCH)
         groups.append((cfg, batches))
@@ -93,10 +119,9 @@ def lenient(raw):
         hs.append((n.decode('latin1'), v.strip(b' \t').decode('latin1')))
     return dict(status=int(m.group(1)), reason='', headers=hs, body=raw[i + 4:])
 
-def read(r):
-    raw = r['writes'][0] if r['writes'] else b''
-    p, why = K.parse_resp(raw)
-    if p is None: p, _ = K.parse_resp(raw, STATUS)
+def read(r, method='HEAD', piped=False):
+    """the final answer the client received (props/c09_features.py): interim answers skipped, every buffer read"""
+    p, why, raw, _ = F.answer(r, method, STATUS, piped)
     return p, why, raw
 
 def asked(headers):
@@ -114,26 +139,45 @@ def grants_due(cfg, ask):
     if 'origin' not in ask: return None
     if cfg in X.ALLOW_ALL_CFGS: return True
     if cfg.startswith('listed'):
-        if ask['origin'] not in X.CFG_ORIGINS: return None
-        if 'access-control-request-method' in ask and not covers(','.join(X.CFG_METHODS), ask['access-control-request-method']): return None
-        if 'access-control-request-headers' in ask and not covers(','.join(X.CFG_HEADERS), ask['access-control-request-headers']): return None
+        origins, methods, headers = X.CFG_LISTS.get(cfg, (X.CFG_ORIGINS, X.CFG_METHODS, X.CFG_HEADERS))
+        if ask['origin'] not in origins: return None
+        if 'access-control-request-method' in ask and not covers(','.join(methods), ask['access-control-request-method']): return None
+        if 'access-control-request-headers' in ask and not covers(','.join(headers), ask['access-control-request-headers']): return None
         return True
     return None
 
+SERVED = (200, 206)
+# 304: GET found the path and tells the client it has it already (a server that learns conditional requests): status and headers of HEAD
+# have to follow; the Content-Length clause does not apply (there is no GET body to measure)
+FOUND = SERVED + (304,)
+
 def judge_triple(res, trip):
-    (cg, rg, _, _), (ch, rh, _, _), (co, ro, _, _) = trip['G'], trip['H'], trip['O']
+    if any(r['head'].startswith(('panic', 'abort')) for cs in trip.values() for _, r, _, _ in cs): return
+    for G_ in trip['G']:
+        for H_ in trip['H']:
+            for O_ in trip['O']:
+                judge_one(res, G_, H_, O_, first=(H_ is trip['H'][0] and O_ is trip['O'][0]), h_new=O_ is trip['O'][0], o_new=H_ is trip['H'][0])
+
+def judge_one(res, G_, H_, O_, first=True, h_new=True, o_new=True):
+    (cg, rg, _, _), (ch, rh, _, _), (co, ro, _, _) = G_, H_, O_
     cfg, fam = cg.note[2], cg.note[3]
-    if any(r['head'].startswith(('panic', 'abort')) for _, r, _, _ in trip.values()): return
-    g, _ = K.parse_resp(rg['writes'][0] if rg['writes'] else b'')
+    piped = len(cg.note) > 5 and cg.note[5]
+    g, _, _ = read(rg, 'GET', piped)
     if g is None: return   # C05's finding
-    res.count(f'GET {g["status"]} {cg.entry}')
-    res.count(f'family {fam} GET {"served" if g["status"] in (200, 206) else "not served"}')
-    if g['status'] not in (200, 206): return
-    if fam != 'base': res.count(f'served {fam} {g["status"]} parts={"many" if any(n == "Content-Type" and v.startswith("multipart/byteranges") for n, v in g["headers"]) else 1}')
-    where = f'({ch.entry}, CORS configuration {cfg})' if cfg != 'default' else f'({ch.entry})'
-    h, hwhy, hraw = read(rh)
-    o, owhy, oraw = read(ro)
-    if h is None:
+    if first:
+        res.count(f'GET {g["status"]} {cg.entry}')
+        res.count(f'family {fam} GET {"served" if g["status"] in FOUND else "not served"}')
+    if g['status'] not in FOUND: return
+    if fam != 'base' and first: res.count(f'served {fam} {g["status"]} parts={"many" if any(n == "Content-Type" and v.startswith("multipart/byteranges") for n, v in g["headers"]) else 1}')
+    where = f'({ch.entry}, CORS configuration {cfg})' if cfg not in ('default', 'special') else f'({ch.entry})'
+    h, hwhy, hraw = read(rh, 'HEAD', piped)
+    o, owhy, oraw = read(ro, 'OPTIONS', piped)
+    if fam == 'special-proc':
+        # the kernel makes the files below /proc on demand: their age is the moment it did so, and it may do so again between two requests
+        for p in (g, h):
+            if p is not None: p['headers'] = [(n, v) for n, v in p['headers'] if n != 'Last-Modified-Unix-Epoch-Nanos']
+    if not h_new: pass
+    elif h is None:
         # GET serves the path and the answer to HEAD is not even a readable response with a registered status
         hl = lenient(hraw)
         res.fail('head-differs-from-get', ch.line[:300], f'unreadable HEAD answer ({hwhy}): {hraw[:60]!r} vs GET {g["status"]}', None,
@@ -147,9 +191,10 @@ def judge_triple(res, trip):
         if h['body']:
             res.fail('head-has-body', ch.line[:300], h['body'][:40].hex(), None, 'C09: HEAD response carries a body')
         cl = H.get(h['headers'], 'Content-Length')
-        if cl and (len(cl) != 1 or not cl[0].isdigit() or int(cl[0]) != len(g['body'])):
+        if g['status'] in SERVED and cl and (len(cl) != 1 or not cl[0].isdigit() or int(cl[0]) != len(g['body'])):
             res.fail('head-content-length-not-get-body', ch.line[:300], f'Content-Length {cl} vs GET body of {len(g["body"])} bytes', None,
                      f'C09: HEAD {ch.target!r} {where}: Content-Length is not the length of the body GET sends')
+    if not o_new: return
     if o is None:
         ol = lenient(oraw)
         res.fail('options-not-bodiless-success', co.line[:300], f'unreadable OPTIONS answer ({owhy}): {oraw[:60]!r}', None,
@@ -187,26 +232,37 @@ def judge(res, results):
         if ml is not None:
             res.programs += 1
             if il != ml: res.disagree(c.line[:400], il[:300], ml[:300], 'App chain / Response.generate_response')
-        trips.setdefault(c.note[0], {})[c.note[1]] = (c, r, il, ml)
+        trips.setdefault(c.note[0], {}).setdefault(c.note[1], []).append((c, r, il, ml))
     for tid in sorted(trips):
         if len(trips[tid]) == 3: judge_triple(res, trips[tid])
 
-SLICE = 32      # batches run side by side and judged before the next ones start (bounds the memory of the thorough tier; quick is one slice)
+SLICE = 48      # batches run side by side and judged before the next ones start (bounds the memory of the thorough tier; quick is one slice)
 
 def run(res, tier, seed):
     rng = C.Rng(seed)
     flat = [(cfg, b) for cfg, batches in build(rng, tier) for b in batches]
-    for i in range(0, len(flat), SLICE):
-        groups = {}
-        for cfg, b in flat[i:i + SLICE]: groups.setdefault(cfg, []).append(b)     # a batch holds whole triples
-        results = X.run_groups(list(groups.items()), WITH_MODEL)
-        judge(res, results)
-        if i == 0:
-            for c, r, il, ml in results[:3]:
-                res.sample({'entry': c.entry, 'request': c.raw[:80].decode('latin1'), 'status_line': r['recv'][:30].decode('latin1')})
+    if SPECIAL: X.special_setup()
+    try:
+        for i in range(0, len(flat), SLICE):
+            groups = {}
+            for cfg, b in flat[i:i + SLICE]: groups.setdefault(cfg, []).append(b)     # a batch holds whole triples
+            results = X.run_groups(list(groups.items()), WITH_MODEL)
+            judge(res, results)
+            if i == 0:
+                for c, r, il, ml in results[:3]:
+                    res.sample({'entry': c.entry, 'request': c.raw[:80].decode('latin1'), 'status_line': r['recv'][:30].decode('latin1')})
+    finally:
+        if SPECIAL: X.special_cleanup()
     res.rule = ('all servable paths of generated trees (files, directory indexes, .html fallbacks, built-in pages with and without a file of their own in the root, links whose name has '
                 'another media type than their target, directories behind links, empty and 64-KiB-crossing files) and missing ones x {GET, HEAD, OPTIONS} in every emission order x '
                 '{no Origin, Origin, Origin+Request-Method(+Request-Headers) over the method table / header-list shapes / origin serialisations / header orders / a browser header block / '
                 'other letter case, Range of every shape around the body size incl. multi-range, Range together with Origin} x target spellings (queries, fragments, doubled slashes, dot '
                 'segments) x request framings (versions, bare LF, leading blank, repeated headers, body) x CORS configurations (allow-all, restricted listed / not listed, switch not '
-                'boolean / unset) x both entry points (thorough: the two application handlers directly as well); judged as triples; distinct = (entry, request, configuration)')
+                'boolean / unset) x both entry points (thorough: the two application handlers directly as well); judged as triples; distinct = (entry, request, configuration). '
+                'Second pass: ONE header of a feature the server does not have (conditional requests with validators that always / never match, If-Range, codings, Expect, bodies, '
+                'connection management, upgrades, method / target override, proxy and Host headers, negotiation, preferences, caches, client hints, fetch metadata, credentials, every header '
+                'name the source mentions) x kinds of path, alone and inside a preflight; files with precompressed / descriptive side files (newer, older, not compressed, without the file) x '
+                'Accept-Encoding; contents a rewriting step touches; names that need escaping and their escaped spellings; directories without an index, other default documents; feature queries; '
+                'paths whose FIRST request is a HEAD / OPTIONS (HEAD twice, GET again, the path again with other headers); Host / Forwarded next to a cross-origin Origin; write scripts of a few '
+                'bytes per call and a second request in the same piece (answers read as the stream the peer received, interim answers skipped); ranges of up to 1900 parts; links to devices, to '
+                '/proc and to a sparse file beyond 2^32 (no model); two more CORS configurations (long lists, allow-all with lists); a GET answered 304 counts as found')
